@@ -722,6 +722,10 @@ func runRedisCmd(ctx *Ctx) {
 				}
 			}
 		}
+		if ctx.R.Enough() {
+			ctx.R.Comment("several violations recorded already: the remaining cases are skipped")
+			break
+		}
 		runRedisCmdCase(ctx, progs, 60, sched, timed)
 	}
 }
